@@ -996,3 +996,7 @@ mod tests {
         assert!(result.is_err());
     }
 }
+
+#[cfg(kani)]
+#[path = "/verif/kani/dht_records_proofs.rs"]
+mod verif_proofs;
